@@ -54,6 +54,11 @@ class HPath:
     def relays(self):
         return [e for e in self.events if e.kind == "await" and RELAY.search(e.callee)]
 
+    @property
+    def upstream_sends(self):
+        """every await that puts a request on a host connection, whatever primitive is used (the connection's own sender or a new one)"""
+        return [e for e in self.events if e.kind == "await" and re.search(r"(^|::)send_request$", e.callee)]
+
     # ---- symbolic handles ----
     def ctx_field(self, name, ty=None):
         return self.tctx.child(("f", self.m.ctx.field("TcpConnectionContext", name)), ty)
